@@ -748,6 +748,12 @@ def _run_program(ctx, prog, lb, plan, stats, judge_cases, judge_meta, burst_case
             alone = resp["calls"][i]
             problems = []
             cb = calls[i]
+            # the response headers are the caller's own (C09 under concurrency): the handler names the call it served
+            served = (b.get("resp_headers") or {}).get(b"_cid".hex())
+            tag = ("c03b%d/%d" % (b.get("round", 0), i)).encode().hex()
+            if b.get("handler") and (b.get("client") or {}).get("kind") in ("ret", "declared") and served != tag:
+                problems.append("the caller's FContext carries the response headers of another call (_cid = %s, own %s)"
+                                % (bytes.fromhex(served).decode("latin1") if served else None, bytes.fromhex(tag).decode()))
             def _noaddr(cl):
                 # an undeclared exception's message prints pointer fields as addresses: not part of the outcome
                 cl = dict(cl or {})
